@@ -74,7 +74,7 @@ def meta(tier):
     import torchtt._amen as am
     fns = [dm.dmrg_matvec_python, dm.dmrg_hadamard_python, am.amen_mv, am.amen_mm, am._amen_mm_python, tt.TT.fast_matvec]
     return {
-        'functions': loader.functions_encoded(fns), 'sig': sig,
+        'overapprox': True, 'functions': loader.functions_encoded(fns), 'sig': sig,
         'bounds': 'CLAUSE DECIDED: only "fast_matvec, dmrg_hadamard, amen_mv and amen_mm return a TT object of the correct kind and shape (well-formed rank chain) and raise nothing, incl. order-1 and order-2 operands, '
                   'with a random or a user-supplied initial guess". orders 1..3 (thorough 4), mode sizes 1..3 (4), operand ranks 1..3, guess ranks 1 and 3, nswp 1..2, kickrank/kick2/rmax variants; every floating value is havoc, '
                   'so all outcomes of QR/SVD/solve, rank truncation, residual tests and convergence tests are covered',
